@@ -84,3 +84,42 @@ MUTANTS += [
     ("c17-constructor-keeps-args-tuple", "C17", B + "n_ary_expression.py", "        self._inners = list(args)", "        self._inners = args", "_take_reduction_step", True),
     ("c17-abstract-method-left", "C17", E + "sine.py", "    def _verify_domain_constraints(", "    def _verify_domain_constraints_renamed(", "abstract", True),
 ]
+
+# mutants of the n-ary code that the symbolic-arity (G-mode) families were validated against with
+# PYVC_G_STRICT=1; in the registered checks an undischarged symbolic-arity obligation is a NOTE and
+# the bounded-arity families refute these with a replayed input
+MUTANTS += [
+    ("g-c03-multiply-forward-keeps-own-factor", "C03", E + "multiply.py",
+     "                inner._numeric_partial(variable_name, point),\n                *util.list_without_entry_at(inner_values, i)",
+     "                inner._numeric_partial(variable_name, point),\n                *inner_values", "]._numeric_partial", True),
+    ("g-c04-multiply-reverse-drops-multiplier", "C04", E + "multiply.py",
+     "            next_multiplier = mf.multiply(\n                multiplier,\n                *util.list_without_entry_at(inner_values, i)\n            )",
+     "            next_multiplier = mf.multiply(\n                *util.list_without_entry_at(inner_values, i)\n            )", "]._compute_numeric_partials", True),
+    ("g-c05-multiply-symbolic-keeps-own-factor", "C05", E + "multiply.py",
+     "                inner._synthetic_partial(variable_name),\n                *util.list_without_entry_at(self._inners, i)",
+     "                inner._synthetic_partial(variable_name),\n                *self._inners", "]._synthetic_partial", True),
+    ("g-c05-multiply-reverse-symbolic-plain-multiplier", "C05", E + "multiply.py",
+     "            inner._compute_synthetic_partials(accumulator, next_multiplier)",
+     "            inner._compute_synthetic_partials(accumulator, multiplier)", "]._compute_synthetic_partials", True),
+    ("g-c08-zero-product-rule-nonpositive", "C08", E + "multiply.py",
+     "isinstance(inner, ex.Constant) and inner.value == 0", "isinstance(inner, ex.Constant) and inner.value <= 0",
+     "_reduce_product_when_multiplying_by_zero", True),
+    ("g-c08-eliminate-ones-threshold", "C08", E + "multiply.py",
+     "if not (isinstance(inner, ex.Constant) and inner.value == 1)", "if not (isinstance(inner, ex.Constant) and inner.value >= 1)",
+     "_reduce_product_by_eliminating_ones", True),
+    ("g-c08-consolidate-constants-drops-product", "C08", E + "multiply.py",
+     "        return Multiply(*non_constants, ex.Constant(product))", "        return Multiply(*non_constants)",
+     "_reduce_product_by_consolidating_constants", True),
+    ("g-c08-negations-parity-swapped", "C08", E + "multiply.py",
+     "        if util.is_even(negations_count):", "        if util.is_odd(negations_count):", "_reduce_product_by_eliminating_negations", True),
+    ("g-c08-add-normal-form-loses-negation", "C08", E + "add.py",
+     "            return ex.Negation(_simplified_Add(type_ii_terms))", "            return _simplified_Add(type_ii_terms)",
+     "]._normalize_fully_reduced", True),
+    ("g-c08-flatten-skips-one-after", "C08", E + "add.py",
+     "        after = self._inners[i + 1:]", "        after = self._inners[i + 2:]", "_reduce_by_flattening_nested_sums", True),
+    ("g-c09-step-driver-flags-without-rules", "C09", B + "n_ary_expression.py",
+     "        for reducer in self._reducers:\n            reduced = reducer()\n            if reduced is not None:\n                return reduced\n        self._is_fully_reduced = True",
+     "        self._is_fully_reduced = True", "]._take_reduction_step", True),
+    ("g-c08-partition-helper-merges-both-lists", "C08", P + "utilities.py",
+     "            misses.append(item)", "            hits.append(item)", "_reduce_product_by_consolidating_constants", True),
+]
